@@ -149,6 +149,29 @@ def run(ck: Check) -> int:
 
     def s_search(sr):
         sr.note = 'every result of every real run checked against the OS; five root mechanisms compared; glob() vs iglob()'
+        # the file-system root itself (a result spelled exactly `/`): never under NODIR, a directory with its separator otherwise
+        # (added after seeded change C12f: the NODIR regex demanded a non-empty prefix before the final separator)
+        for pat, extra in (('/', 0), ('//', 0), ('///', 0), (['/', 'zz-nothing'], 0), ('{/,zz-nothing/}', G.BRACE), ('zz-nothing|/', G.SPLIT),
+                           (b'/', 0), ('/.', 0), ('/..', 0), ('/./', 0)):
+            for fl0 in (0, G.MARK, G.GLOBSTAR, G.MARK | G.GLOBSTAR | G.DOTGLOB):
+                for api in ('glob', 'iglob'):
+                    stats['results_checked'] += 1
+                    try:
+                        with_nodir = list(getattr(G, api)(pat, flags=fl0 | extra | G.NODIR))
+                        without = list(getattr(G, api)(pat, flags=fl0 | extra))
+                    except Exception as e:      # noqa: BLE001
+                        found.append(Failing(f'{api}({pat!r}) raised {type(e).__name__}', {'api': api, 'pattern': repr(pat), 'flags': fl0 | extra},
+                                             'a list', str(e)[:200]))
+                        continue
+                    dirs = [r for r in with_nodir if os.path.isdir(r)]
+                    if dirs:
+                        found.append(Failing(f'directory {dirs[0]!r} returned under NODIR', {'api': api, 'pattern': repr(pat),
+                                                                                             'flags_int': fl0 | extra | G.NODIR},
+                                             'no directory', with_nodir, 'wcmatch/_wcparse.py:95-102 (RE_NO_DIR)'))
+                    if not without or not all(os.path.isdir(r) for r in without):
+                        found.append(Failing(f'{api}({pat!r}) without NODIR does not return the root directory', {'api': api, 'pattern': repr(pat),
+                                                                                                               'flags_int': fl0 | extra},
+                                             'the root directory', without))
         sr.histogram = dict(stats)
         sr.evaluations = stats['results_checked'] + stats['root_independence_groups']
         sr.distinct = stats['runs']
